@@ -138,7 +138,10 @@ def ctor_probes(workdir, quick):
             if "evaluation of" not in c.stderr and "E0080" not in c.stderr and "panicked" not in c.stderr:
                 return (b, l, name, "tool_error", c.stderr[-400:])
             return (b, l, name, kind, "")
-        x = subprocess.run([base], capture_output=True, text=True, timeout=60)
+        try:
+            x = subprocess.run([base], capture_output=True, text=True, timeout=60)
+        except subprocess.TimeoutExpired:
+            return (b, l, name, "hang", "")      # not "obtained": a mismatch for a well-formed type, allowed for an ill-formed one
         os.remove(base)
         out = x.stdout.strip()
         if x.returncode != 0 and not out:
